@@ -6,7 +6,7 @@ from . import _path
 
 RULE = ("paths with every op order (curves as first op, directly after MoveTo, after Close, after a second Close; repeated "
         "MoveTo; zero-length and looping curves whose end equals their start) on the quarter grid and off it, tolerances "
-        "0.01..1; Path::flatten's op list is compared exactly with the model (non-curve ops bit-identical, lyon's points per "
+        "0.01..1, and curves up to 1000 px at tolerances down to 0.0005 (hundreds of segments per curve); Path::flatten's op list is compared exactly with the model (non-curve ops bit-identical, lyon's points per "
         "curve supplied by the harness from the cursor the fill-side semantics gives); the statement is then checked on the "
         "crate's output: only MoveTo/LineTo/Close, MoveTo/LineTo/Close preserved in order, each curve replaced by points "
         "within 8*tolerance of the curve, in parameter order, ending bit-exactly at the curve's end point, the curve "
@@ -18,6 +18,11 @@ def make_lines(rng, n):
     for i in range(n):
         ops = pc.mixed_ops(rng)
         tol = rng.choice([0.1, 0.01, 1.0, 0.5, 0.05])
+        if i % 40 == 39:
+            # large curves at a fine tolerance: hundreds of segments per curve
+            big = lambda r: (r.randrange(-200, 4000) / 4.0, r.randrange(-200, 4000) / 4.0)
+            ops = pc.mixed_ops(rng, pt=big)
+            tol = rng.choice([0.004, 0.001, 0.0005, 0.02])
         lines.append("pflatten %d %d %s" % (i, FB(tol), scene.path_tokens(ops, rng.randrange(2))))
     return lines
 
@@ -87,11 +92,11 @@ def oracle(aug, impl):
                 return "the polyline of a curve does not end exactly at the curve's end point"
             full = [cur] + ctrl
             if all(geom.finite(*p) for p in full):
-                cp = geom.curve_points(o[0], full)
+                cp = geom.curve_points(o[0], full, n=128)
                 scale = max(1.0, max(abs(v) for p in full for v in p))
                 lim = 8 * tol + 1e-4 * scale
                 for p in pts:
-                    if geom.dist_to_curve(p, cp) > lim:
+                    if geom.dist_to_curve(p, cp) > lim and geom.dist_to_curve_exact(p, o[0], full) > lim:
                         return "a vertex of the flattened curve is farther than 8*tolerance from the curve"
                 for p in cp:
                     if geom.polyline_dist(p, pts) > lim:
@@ -111,7 +116,46 @@ ASSUME = ["lyon_geom's flattening is an oracle: its points are checked against t
           "deviation measured with 64 samples per curve"]
 
 
+def fill_vs_flatten(ctx):
+    """"flattening preserves geometry": filling the flattened path paints what filling the path itself paints.  Evaluated
+    on the crate (Path::flatten's own output is fed back to DrawTarget::fill), away from the outline: where the fill of
+    the original has a 3x3 block of fully painted (or untouched) pixels the fill of the flattening must agree."""
+    from .. import build, scenecheck as sc, core
+    rng = ctx.rng
+    n = 80 if ctx.tier == "quick" else 1500
+    W = H = 30
+    paths, rules = [], []
+    for i in range(n):
+        ops = scene.curvy_path(rng, W, H)
+        paths.append(ops); rules.append(rng.randrange(2))
+    fl = ["pflatten %d %d %s" % (i, FB(0.1), scene.path_tokens(ops, r)) for i, (ops, r) in enumerate(zip(paths, rules))]
+    out, died = build.run_sharded(build.RQV, fl)
+    zero = " ".join(["00000000"] * (W * H))
+    A, B = [], []
+    for i, line in enumerate(out):
+        t = line.split()
+        if len(t) < 5 or t[1] != "ok":
+            continue
+        flat = " ".join(t[2:])          # "P w n ops..."
+        A.append("scene %d %d %d I %s ; fill %s solid ffffffff 3 %d 1" % (i, W, H, zero, scene.path_tokens(paths[i], rules[i]), FB(1.0)))
+        B.append("scene %d %d %d I %s ; fill %s solid ffffffff 3 %d 1" % (i, W, H, zero, flat, FB(1.0)))
+    # the statement is evaluated exactly as for C08, with the ORIGINAL path as the exact shape and the crate's fill of
+    # the FLATTENED path as the picture: pixels farther than 1 px (+ half diagonal) from the exact outline must be
+    # fully painted inside and untouched outside
+    from . import C08
+    meta = []
+    for la in A:
+        i = int(la.split()[1])
+        meta.append((paths[i], rules[i], scene.IDENT, False))
+    ctx.cov["fill_vs_flatten_pairs"] = len(B)
+    B2 = ["scene %s %d %d I %s ; xf %s ; %s" % (lb.split()[1], W, H, zero, scene.xf_tokens(scene.IDENT), lb.split(" ; ", 1)[1]) for lb in B]
+    C08.eval_scenes(ctx, B2, meta, what="flatfill")
+
+
 def run(ctx):
+    from .. import core
+    if core.prepare(ctx):
+        fill_vs_flatten(ctx)
     return _path.run_property(ctx, make_lines, RULE, oracle, ASSUME, nontrivial, 5000, 100000,
                               "PathOps.flatten vs Path::flatten")
 
